@@ -111,6 +111,9 @@ func (fs *FileSystem) Retrieve(id string, _ *RetrieveOptions) (*sbom.Document, e
 	if err := proto.Unmarshal(data, bom); err != nil {
 		return nil, fmt.Errorf("unmarshaling protobom data: %w", err)
 	}
+	if bom.GetMetadata().GetId() != id {
+		return nil, fmt.Errorf("stored protobom data does not match document id %q", id)
+	}
 
 	return bom, nil
 }
